@@ -51,7 +51,18 @@ SidSetup ==
        [E0 EXCEPT !.kind = "Binding", !.creator = "a09", !.acc = "a11", !.did = "s1"] >>
 AllSetup == IF Family = "sidauth" THEN SetupEvents \o SidSetup ELSE SetupEvents
 
-InitState == FoldLeft(LAMBDA s, e : Apply(Cfg, s, e).st, Gen.post, AllSetup)
+\* family migrate starts from one stored model (replica 1, completed by whoever was assigned)
+MigStore == [E0 EXCEPT !.kind = "Store", !.creator = Gateway, !.provider = Gateway, !.gw = Gateway, !.owner = "d1", !.signer = "d1",
+                       !.data = "D1", !.commit = "D1", !.cseg = <<"D1">>, !.op = 1, !.dur = 3600, !.replica = 1, !.timeout = 1800,
+                       !.size = 1000, !.alias = "alD1"]
+MigSetup ==
+    LET s1 == FoldLeft(LAMBDA s, e : Apply(Cfg, s, e).st, Gen.post, SetupEvents)
+        s2 == Apply(Cfg, s1, MigStore).st
+        sp == s2.shards[1].sp
+    IN <<MigStore, [E0 EXCEPT !.kind = "Complete", !.creator = sp, !.provider = sp, !.order = 1, !.size = 1000]>>
+FullSetup == IF Family = "migrate" THEN SetupEvents \o MigSetup ELSE AllSetup
+
+InitState == FoldLeft(LAMBDA s, e : Apply(Cfg, s, e).st, Gen.post, FullSetup)
 
 \* ---------------------------------------------------------------- alphabet
 StoreNew(s) ==
@@ -258,6 +269,18 @@ GenFaults(s) ==
                    r \in {sh.sp, "a03"}}
            : sh \in {x \in Rng(s.shards) : x.status = SCompleted /\ HasOrder(s, x.order) /\ x.id % 2 = s.h % 2}}
 
+\* migrate: one stored model; its holder hands the shard over (Migrate, the new holder's Complete), the owner renews (at most
+\* three renewals queued), time jumps from one scheduled height to just past it - in every order: hand-overs that straddle
+\* one or several roll-overs, second hand-overs, termination. C13 (every listed shard exists, every shard is listed), C04/C06
+\* (payments), C07/C14 (collateral), C11 (paid term) on every step.
+MigrateEvents(s) ==
+    Completes(s) \cup Migrates(s)
+    \cup (IF Len(s.orders) <= 3 THEN {[E0 EXCEPT !.kind = "Renew", !.creator = Gateway, !.provider = Gateway, !.owner = m.owner, !.signer = m.owner,
+                                               !.datas = <<m.data>>, !.dur = 3600, !.timeout = 1800] : m \in Rng(s.metas)} ELSE {})
+    \cup (LET nx == NextScheduled(Cfg, Work(s)) IN
+          IF nx = -1 \/ nx - s.h > 12000 THEN {} ELSE {[E0 EXCEPT !.kind = "Blocks", !.n = nx - s.h + 1]})
+    \cup (IF s.h > 3000 THEN Terminates(s) ELSE {})
+
 \* fault: one or two stored models; reports and recovery declarations by the fishman (a03), an ordinary node (a01) and the
 \* accused, about matching and mismatching shard / commit / data ids; time jumps to the next penalty round (every 600
 \* blocks) and across expiry. C19 on every step.
@@ -293,6 +316,7 @@ Events(s) ==
       [] Family = "sidauth" -> SidAuthEvents(s)
       [] Family = "sponsor" -> SponsorEvents(s)
       [] Family = "fault"   -> FaultEvents(s)
+      [] Family = "migrate" -> MigrateEvents(s)
       [] Family = "gen" -> GStoreNew(s) \cup GStoreMore(s) \cup GStoreUpd(s) \cup GCompletes(s) \cup GCancels(s) \cup GSigned(s)
                            \cup Migrates(s) \cup Claims(s) \cup GBlocks(s) \cup GenDid(s) \cup GenStaking(s) \cup GenFaults(s)
       [] Family = "pay" -> StoreNew(s) \cup StoreUpd(s) \cup Completes(s) \cup Cancels(s) \cup Terminates(s) \cup Renews(s)
@@ -305,13 +329,19 @@ OutOf(s, e, r) ==
      claimed |-> IF e.creator \in DOMAIN s.bal THEN BalOf(r.st, e.creator) - BalOf(s, e.creator) ELSE 0,
      panic |-> FALSE, err |-> ""]
 
+\* the ghost ledger is carried through the setup events as well (a family may start with orders already in place)
+InitPair ==
+    FoldLeft(LAMBDA acc, e : LET r == Apply(Cfg, acc.st, e)
+                                 x == [pre |-> acc.st, ev |-> e, out |-> OutOf(acc.st, e, r), post |-> r.st]
+                             IN [st |-> r.st, gh |-> GhostStep(acc.gh, x)],
+             [st |-> Gen.post, gh |-> GhostInit([post |-> Gen.post, cfg |-> Cfg])], FullSetup)
 Init ==
-    /\ st = InitState
-    /\ gh = GhostInit([post |-> InitState, cfg |-> Cfg])
+    /\ st = InitPair.st
+    /\ gh = InitPair.gh
     /\ bad = {}
     /\ lastEv = E0
     /\ depth = 0
-    /\ hist = AllSetup
+    /\ hist = FullSetup
 
 Next ==
     /\ depth < MaxEvents
